@@ -321,9 +321,23 @@ def job_a(job):
                         if mo != mr:
                             seqs = sorted((s for s in set(mo) | set(mr) if mo.get(s) != mr.get(s)))
                             byseq = {p[0]: p for p in peps}
+                            # Is every difference exactly what "the raw path knows no coding transcript" predicts?
+                            # (load_coding_transcripts: dump_gtf never sets is_protein_coding -> empty coding set)
+                            cfg0 = ctx.config()
+                            explained = True
+                            for s in seqs:
+                                if s not in byseq:
+                                    explained = False
+                                    break
+                                _, ents_, dl_ = byseq[s]
+                                must0, may0 = L.expected(ents_, s, cfg0, dl_, coding=frozenset())
+                                if (mo.get(s) or '').split(' ') != [e.text for e in must0] and not (not must0 and s not in mo):
+                                    explained = False
+                                    break
                             cand = min((ctx.rank(byseq[s][1], byseq[s][2]), s) for s in seqs if s in byseq)
                             s0 = cand[1]
-                            best.add('rawgtf/differs-from-index-path', cand[0], ctx.case_id(byseq[s0][1], byseq[s0][2]),
+                            best.add('rawgtf/coding-transcripts-unknown' if explained else 'rawgtf/differs-from-index-path',
+                                     cand[0], ctx.case_id(byseq[s0][1], byseq[s0][2]),
                                      f'header {" ".join(e.text for e in byseq[s0][1])!r}: --index-dir writes {mr.get(s0)!r}, '
                                      f'--annotation-gtf writes {mo.get(s0)!r} ({len(seqs)} peptides differ in this run)',
                                      pep_replay(s0, byseq[s0][1], byseq[s0][2], ctx, block))
